@@ -159,13 +159,24 @@ Proof.
 Qed.
 
 (** if every component's test scores are a rearrangement of its reference scores, the histograms coincide and every
-    component score is 1 - np.sum(normalised reference histogram) - in every arithmetic, floats included *)
+    component score is max(0.0, 1 - np.sum(normalised reference histogram)) - in every arithmetic, floats included *)
 Theorem C11_equal_windows_structural : forall b xs tproj x, pc_inter p = true ->
   let s := pc_run p b (pc_init p) xs in
   (forall i, In i (pcs_of (npcs_of p s)) -> Permutation (col i tproj) (col i (m_rproj p s))) ->
   fst (comp_scores p s tproj x) =
-  map (fun i => fsub f1 (np_sum (snd (nth (Z.to_nat i) (m_dref p s) ([], []))))) (pcs_of (npcs_of p s)).
+  map (fun i => pymax f0 (fsub f1 (np_sum (snd (nth (Z.to_nat i) (m_dref p s) ([], [])))))) (pcs_of (npcs_of p s)).
 Proof. intros b xs tproj x Hi s HP. apply scores_equal_windows; [apply RefH_reach | exact Hi | exact HP]. Qed.
+
+(** the intersection divergence, and with it the score handed to Page-Hinkley, is the float zero or strictly
+    positive - never negative, never NaN - in every arithmetic with no law assumed (so in the float model);
+    under the order laws this reads 0 <= score *)
+Theorem C11_score_never_negative : forall s x (dr dt : list (F N)),
+  (inter_div dr dt = f0 \/ fltb f0 (inter_div dr dt) = true) /\
+  (pc_inter p = true -> score_of p s x = f0 \/ fltb f0 (score_of p s x) = true) /\
+  (OrdLaws N -> fleb f0 (inter_div dr dt) = true).
+Proof.
+  intros s x dr dt. split; [apply inter_div_sign|]. split; [apply score_sign|]. intros L. apply inter_div_nonneg. exact L.
+Qed.
 
 (** ---------------- online_scaling ---------------- *)
 (** with online_scaling off the update is the same function of the same oracles; only the StandardScaler calls
@@ -263,6 +274,7 @@ Print Assumptions C11_same_edges.
 Print Assumptions C11_supports_at_build.
 Print Assumptions C11_winsorised.
 Print Assumptions C11_equal_windows_structural.
+Print Assumptions C11_score_never_negative.
 Print Assumptions C11_scaling_irrelevant.
 Print Assumptions C11_histogram_is_distribution.
 Print Assumptions C11_intersection_zero_equal_windows.
